@@ -288,8 +288,11 @@ impl AnnotatedLexer<'_> {
         let item = match self.lexer.next() {
             Some(item) => item,
             // The source ends in the middle of a statement: the statement
-            // ends here, exactly as if the file ended with a newline.
-            None if self.raw_token != RawToken::default() => {
+            // ends here, exactly as if the file ended with a newline. This
+            // newline is handed out once, so that a loop that skips newlines
+            // still comes to an end.
+            None if self.raw_token != RawToken::default() && !self.gave_final_newline => {
+                self.gave_final_newline = true;
                 let end = *self.raw_token.range().end();
                 Ok(Token::new(
                     TokenType::Newline,
@@ -325,6 +328,9 @@ impl AnnotatedLexer<'_> {
 struct AnnotatedLexer<'a> {
     lexer: &'a mut Peekable<Lexer>,
     raw_token: RawToken,
+    /// Set once the end of the source was reported as the newline that ends
+    /// the current statement.
+    gave_final_newline: bool,
 }
 impl TryFrom<&mut Peekable<Lexer>> for ParserNode {
     type Error = LexError;
@@ -339,6 +345,7 @@ impl TryFrom<&mut Peekable<Lexer>> for ParserNode {
         let mut lex = AnnotatedLexer {
             lexer: val,
             raw_token: RawToken::default(),
+            gave_final_newline: false,
         };
 
         let next_node = lex.get_any()?;
@@ -1053,7 +1060,10 @@ impl TryFrom<&mut Peekable<Lexer>> for ParserNode {
                             // not found
                             let mut values = Vec::new();
                             loop {
-                                let next = lex.peek_any()?;
+                                // the end of the source ends the list
+                                let Ok(next) = lex.peek_any() else {
+                                    break;
+                                };
                                 if let TokenType::Newline = next.token_type() {
                                     // consume newline
                                     lex.get_any()?;
@@ -1081,7 +1091,11 @@ impl TryFrom<&mut Peekable<Lexer>> for ParserNode {
                             // macros are unsupported
                             // we will just ignore them until the we reach endmacro
                             loop {
-                                let next = lex.get_any()?;
+                                // a macro that is never closed ends with the source
+                                let next = match lex.get_any() {
+                                    Err(LexError::UnexpectedEOF) => break,
+                                    next => next?,
+                                };
                                 if let TokenType::Directive(dir2) = next.token_type() {
                                     if let Ok(new_dir) = DirectiveToken::from_str(dir2) {
                                         if new_dir == DirectiveToken::EndMacro {
